@@ -225,6 +225,10 @@ class Adapter(object):
                         g.delete_connection((real_block(a["a"]), real_block(a["b"])))
                     elif c == "delete_rocktype":
                         g.delete_rocktype(real_rock(a["r"]))
+                    elif c == "readd_block":
+                        g.add_block(g.block[real_block(a["n"])])
+                    elif c == "readd_connection":
+                        g.add_connection(g.connection[(real_block(a["a"]), real_block(a["b"]))])
                     elif c == "minc":
                         g.minc([f * 0.01 for f in a["fr"]], blocks=[real_block(n) for n in a["sel"]], atmos_volume=float(self.atmvol))
                     a["raised"] = False
@@ -432,7 +436,14 @@ def random_action(ad, rng, base, rocks, kinds, fracs, allow_minc=True):
                          "delete_connection", "demote_block", "rename_blocks", "rename_blocks",
                          "reorder", "reorder", "minc", "embed"])
         if rng.random() < 0.08:
-            c = rng.choice(["rename_rocktype", "delete_block", "delete_connection", "delete_rocktype", "minc", "minc"])
+            c = rng.choice(["rename_rocktype", "delete_block", "delete_connection", "delete_rocktype", "minc", "minc",
+                            "readd_block", "readd_block", "readd_connection"])
+            if c == "readd_block" and live:
+                # the block object that is already there, added again (after an edit of its attributes, say): nothing to do
+                return {"op": "refused", "call": c, "n": rng.choice(live), "clean": True}
+            if c == "readd_connection" and ckeys:
+                x, y = rng.choice(ckeys)
+                return {"op": "refused", "call": c, "a": x, "b": y, "clean": True}
             if c == "rename_rocktype" and len(rks) >= 2:
                 r, q = rng.sample(rks, 2)
                 return {"op": "refused", "call": c, "r": r, "q": q, "clean": True}
